@@ -178,10 +178,21 @@ def score (d : DeclInfo) : Int :=
   let defs := (defines d.items).filterMap itemName
   (3 : Int) - ((defs.map hoistLen).sum : Nat) + 1 - (if defs.isEmpty && d.inFor then 1 else 0)
 
-/-- the index selected by the loop `if score < scores[best] { best = i }` -/
+/-- the loop `if score < scores[best] { best = i }` from index `i` on; `b`, `bs` = best index so far and its score -/
+def bestFrom : List Int → Nat → Nat → Int → Nat
+  | [], _, b, _ => b
+  | sc :: t, i, b, bs => if sc < bs then bestFrom t (i + 1) i sc else bestFrom t (i + 1) b bs
+
+/-- the index selected by `hoistVars` -/
 def bestIdx (scores : List Int) : Nat :=
-  (scores.zipIdx.foldl (fun (acc : Nat × Int) (p : Int × Nat) => if p.1 < acc.2 then (p.2, p.1) else acc)
-    (0, scores.headD 0)).1
+  match scores with
+  | [] => 0
+  | s0 :: t => bestFrom t 1 0 s0
+
+/-- `hoist[i]` before the `isShadowed` test: the score is not negative and it is not the best declaration -/
+def flagsFrom (best : Nat) : List Int → Nat → List Bool
+  | [], _ => []
+  | sc :: t, i => (decide (0 ≤ sc) && i != best) :: flagsFrom best t (i + 1)
 
 /-- `isShadowed decl target` -/
 def isShadowed (d target : DeclInfo) : Bool :=
@@ -207,20 +218,20 @@ def newNames (orig : List String) : List DE → List String × List String
       else let r := newNames (orig ++ [x]) t; (x :: r.1, r.2)
     | none => newNames orig t
 
-/-- the loop over the declarations: `pre` = bare items prepended so far, `post` = appended -/
+/-- the loop over the declarations from index `i` on: `pre` = names prepended so far, `post` = appended -/
 def planLoop (best : Nat) (target : DeclInfo) :
-    List (DeclInfo × Bool × Nat) → List String → List String → List String → List Bool × List String × List String
-  | [], _, pre, post => ([], pre, post)
-  | (d, h, i) :: t, orig, pre, post =>
+    List DeclInfo → List Bool → Nat → List String → List String → List String → List Bool × List String × List String
+  | d :: ds, h :: hs, i, orig, pre, post =>
     let h1 := h && !isShadowed d target
     if h1 then
       let nn := newNames orig d.items
-      let r := if i < best then planLoop best target t nn.2 (pre ++ nn.1) post
-               else planLoop best target t nn.2 pre (post ++ nn.1)
+      let r := if i < best then planLoop best target ds hs (i + 1) nn.2 (pre ++ nn.1) post
+               else planLoop best target ds hs (i + 1) nn.2 pre (post ++ nn.1)
       (true :: r.1, r.2)
     else
-      let r := planLoop best target t orig pre post
+      let r := planLoop best target ds hs (i + 1) orig pre post
       (false :: r.1, r.2)
+  | _, _, _, _, pre, post => ([], pre, post)
 
 def bare (x : String) : DE := .var x { decl := 1 }
 
@@ -229,9 +240,7 @@ def plan (ds : List DeclInfo) : Option Plan :=
   let scores := ds.map score
   let best := bestIdx scores
   let target := ds.getD best default
-  let flags := scores.zipIdx.map (fun p => decide (0 ≤ p.1) && p.2 != best)
-  let r := planLoop best target ((ds.zip flags).zipIdx.map (fun p => (p.1.1, p.1.2, p.2)))
-    (itemNames target.items) [] []
+  let r := planLoop best target ds (flagsFrom best scores 0) 0 (itemNames target.items) [] []
   some ⟨best, r.1, r.2.1, r.2.2⟩
 
 /-- the item list of the best declaration after hoisting -/
